@@ -682,16 +682,21 @@ func (g *c08Gen) prevWhole(s *c08Spec) (client.Object, string) {
 	conds := c08API(exp.Conds, s.Gen, tt)
 	mode := "same"
 	x := r.Intn(100)
+	gwOnly := 101
+	if s.Kind == c08GW && !s.Ignored && s.GwValid {
+		gwOnly = 60 // a Gateway status has more to differ in: listeners, attached routes, kinds, addresses
+	}
 	switch {
+	case x >= gwOnly:
 	case x < 30:
 	case x < 45:
 		conds, mode = nil, "none"
-	case x < 70:
+	case x < 85:
 		mode = "cond-changed"
 		if !g.perturbCond(conds) {
 			mode = "same"
 		}
-	case x < 78:
+	default:
 		if len(conds) > 1 {
 			conds[0], conds[1] = conds[1], conds[0]
 			mode = "conds-reordered"
@@ -713,9 +718,9 @@ func (g *c08Gen) prevWhole(s *c08Spec) (client.Object, string) {
 				})
 			}
 		}
-		if x >= 78 {
+		if x >= gwOnly {
 			ls := o.Status.Listeners
-			switch k := r.Intn(5); {
+			switch k := r.Intn(6); {
 			case k == 0 && len(ls) > 0:
 				ls[r.Intn(len(ls))].AttachedRoutes++
 				mode = "attached-changed"
@@ -732,6 +737,15 @@ func (g *c08Gen) prevWhole(s *c08Spec) (client.Object, string) {
 			case k == 4 && len(ls) > 0 && len(ls[0].SupportedKinds) > 0:
 				ls[0].SupportedKinds = ls[0].SupportedKinds[1:]
 				mode = "kinds-changed"
+			case k == 5 && len(ls) > 0 && len(ls[0].SupportedKinds) > 0:
+				ks := append([]v1.RouteGroupKind(nil), ls[0].SupportedKinds...)
+				if ks[0].Group == nil {
+					ks[0].Group = helpers.GetPointer[v1.Group](v1.GroupName)
+				} else {
+					ks[0].Group = nil
+				}
+				ls[0].SupportedKinds = ks
+				mode = "kind-group-changed"
 			}
 		}
 	}
@@ -972,7 +986,7 @@ func TestVerifC08(t *testing.T) {
 		}
 	}
 
-	n := out.Count(700, 9000)
+	n := out.Count(700, 4000)
 	for i := 0; i < n; i++ {
 		g := &c08Gen{rng: rng.Fork(), pools: pools, size: i * 6 / n}
 		if out.Thorough() && i%40 == 39 {
